@@ -155,17 +155,17 @@ End OneSig.
 
 (* isSynthesizedCNAME: exactly the RFC 6672 substitution under a proper DNAME ancestor *)
 Lemma synthesized_cname_iff owner target dnames :
-  is_synthesized_cname owner target dnames = true <->
+  is_synthesized_cname_spec owner target dnames = true <->
   exists d, In d dnames /\ 0 < count_label (fst d) /\ count_label (fst d) < count_label owner /\
-    compare_suffix (fst d) owner = count_label (fst d) /\
+    compare_suffix_spec (fst d) owner = count_label (fst d) /\
     equal_fold (fqdn (firstn (N.to_nat (prev_label owner (count_label (fst d)))) owner ++ snd d)) (fqdn target) = true.
 Proof.
-  unfold is_synthesized_cname. rewrite existsb_exists. split.
+  unfold is_synthesized_cname_spec. rewrite existsb_exists. split.
   - intros (d & Hd & H). exists d. split; [exact Hd|].
     destruct (count_label (fst d) =? 0) eqn:E0; [discriminate|]. apply N.eqb_neq in E0.
     destruct (count_label owner <=? count_label (fst d)) eqn:E1; [discriminate|]. apply N.leb_gt in E1.
     cbn [orb] in H.
-    destruct (compare_suffix (fst d) owner =? count_label (fst d)) eqn:E2; [|discriminate]. apply N.eqb_eq in E2.
+    destruct (compare_suffix_spec (fst d) owner =? count_label (fst d)) eqn:E2; [|discriminate]. apply N.eqb_eq in E2.
     cbn [negb] in H. rewrite E2 in H. repeat split; try lia; assumption.
   - intros (d & Hd & H0 & H1 & H2 & H3). exists d. split; [exact Hd|].
     assert (E0 : (count_label (fst d) =? 0) = false) by (apply N.eqb_neq; lia).
